@@ -396,15 +396,17 @@ Proof.
 Qed.
 
 (* uv_{idle,prepare,check}_stop *)
-Lemma watcher_stop_spec s pend wpend i :
-  LInvG s pend wpend -> QInv s -> (i < length (hs s))%nat -> is_watcher s i = true ->
+Definition RT (s : lstate) : Prop := forall j, In j (ready (ts s)) -> is_timer (hget s j) = true.
+
+Lemma watcher_stop_spec s i :
+  RT s -> QInv s -> (i < length (hs s))%nat -> is_watcher s i = true ->
   QInv (watcher_stop s i) /\ OnlyAt s (watcher_stop s i) i /\
   fl (hget (watcher_stop s i) i) = (h_kind (hget s i), false, h_closing (hget s i), h_closed (hget s i)) /\
   ~ In i (lq (watcher_stop s i)) /\ (forall k, ~ In i (wq_get (watcher_stop s i) k)) /\
   async_q (watcher_stop s i) = async_q s /\ alq (watcher_stop s i) = alq s /\
   ts (watcher_stop s i) = ts s /\ closing (watcher_stop s i) = closing s.
 Proof.
-  intros Hinv Q Hi Hw. pose proof Hinv as [HI _]. unfold watcher_stop.
+  intros HI Q Hi Hw. unfold watcher_stop.
   destruct (h_active (hget s i)) eqn:Ea.
   2:{ splits; auto.
       - apply OnlyAt_refl.
@@ -446,7 +448,7 @@ Proof.
       destruct (q_as _ Q i Hj) as (_ & Hk & _). apply is_watcher_kind in Hw. rewrite Hk in Hw.
       destruct Hw as [H|[H|H]]; discriminate.
     + intros j Hj. rewrite ts_handle_stop, AS3 in Hj. split; [exact Hj|]. intros ->.
-      pose proof (hi_ready _ _ HI i Hj). congruence.
+      pose proof (HI i Hj). congruence.
   - exact O.
   - rewrite handle_stop_fl by (rewrite H1; exact Hi). rewrite G2. reflexivity.
   - rewrite E4. intros H. destruct (LQ i H). congruence.
@@ -455,4 +457,387 @@ Proof.
   - congruence.
   - rewrite ts_handle_stop. exact AS3.
   - unfold handle_stop. destruct (h_active (hget s2 i)), (h_ref (hget s2 i)); exact AS4.
+Qed.
+
+Lemma LInvG_RT s pend wpend : LInvG s pend wpend -> RT s.
+Proof. intros [HI _] j Hj. apply (hi_ready _ _ HI j Hj). Qed.
+
+Lemma is_timer_kind h : is_timer h = true <-> h_kind h = KTimer.
+Proof. unfold is_timer. destruct (h_kind h); cbn; split; intros H; auto; discriminate. Qed.
+
+(* UV_HANDLE_CLOSING is set on a handle that sits in no async list and not in
+   the ready list *)
+Lemma QInv_closing_flag s i :
+  QInv s -> ~ In i (async_q s ++ alq s) -> ~ In i (ready (ts s)) ->
+  QInv (upd_h s i (with_closing true)).
+Proof.
+  intros Q A R. destruct Q.
+  assert (G : forall j, h_kind (hget (upd_h s i (with_closing true)) j) = h_kind (hget s j) /\
+                        h_active (hget (upd_h s i (with_closing true)) j) = h_active (hget s j) /\
+                        (j <> i -> h_closing (hget (upd_h s i (with_closing true)) j) = h_closing (hget s j))).
+  { intros j. rewrite hget_upd_h. destruct (Nat.eqb i j && Nat.ltb i (length (hs s))) eqn:E; [|auto].
+    apply andb_prop in E. destruct E as [E _]. apply Nat.eqb_eq in E. subst j. splits; auto. congruence. }
+  constructor.
+  - intros k j Hj. change (wq_get (upd_h s i (with_closing true)) k) with (wq_get s k) in Hj.
+    destruct (q_w0 k j Hj) as (A1 & A2 & A3). destruct (G j) as (G1 & G2 & _).
+    rewrite len_upd_h. splits; congruence.
+  - intros j Hj. change (lq (upd_h s i (with_closing true))) with (lq s) in Hj.
+    destruct (q_lq0 j Hj) as (A1 & A2 & A3). destruct (G j) as (G1 & G2 & _).
+    rewrite len_upd_h. splits; try congruence.
+    apply is_watcher_kind. apply is_watcher_kind in A3. rewrite G1. exact A3.
+  - intros j Hj. change (async_q (upd_h s i (with_closing true)) ++ alq (upd_h s i (with_closing true)))
+      with (async_q s ++ alq s) in Hj.
+    destruct (q_as0 j Hj) as (A1 & A2 & A3). destruct (G j) as (G1 & _ & G3).
+    rewrite len_upd_h. splits; try congruence. rewrite G3; [exact A3|]. intros ->. auto.
+  - intros j Hj. change (ready (ts (upd_h s i (with_closing true)))) with (ready (ts s)) in Hj.
+    destruct (G j) as (_ & _ & G3). rewrite G3; [auto|]. intros ->. auto.
+Qed.
+
+Lemma set_closing_QInv s v : QInv s -> QInv (set_closing s v).
+Proof. intros [A B C D]. constructor; auto. Qed.
+
+Lemma KF_set_closing s v : KF s (set_closing s v).
+Proof. apply KF_hs. reflexivity. Qed.
+
+(* uv_close *)
+Lemma l_close_spec s pend wpend i :
+  LInvG s pend wpend -> QInv s -> (i < length (hs s))%nat ->
+  h_closing (hget s i) = false ->
+  QInv (l_close s i) /\ KF s (l_close s i).
+Proof.
+  intros Hinv Q Hi Hc. pose proof Hinv as [HI _]. pose proof (LInvG_RT _ _ _ Hinv) as HR.
+  unfold l_close. rewrite Hc.
+  set (s1 := upd_h s i (with_closing true)).
+  assert (G1 : hget s1 i = with_closing true (hget s i)) by (apply hget_upd_h_same; exact Hi).
+  assert (L1 : length (hs s1) = length (hs s)) by apply len_upd_h.
+  assert (O1 : OnlyAt s s1 i) by apply OnlyAt_upd.
+  destruct (h_kind (hget s i)) eqn:Ek.
+  - (* timer *)
+    set (s2 := set_ts s1 (timer_close (ts s1) i)).
+    assert (Hit : (i < length (tms (ts s)))%nat) by (rewrite (hi_len _ _ HI); exact Hi).
+    destruct (timer_stop_effect (ts s) i (hi_ti _ _ HI) Hit) as (_ & Hnr & _ & _ & _ & Hrd & _).
+    assert (O : OnlyAt s (handle_stop s2 i) i).
+    { apply OnlyAt_trans with (b := s2); [|apply OnlyAt_handle_stop].
+      apply OnlyAt_trans with (b := s1); [exact O1|apply OnlyAt_hs; reflexivity]. }
+    assert (F : fl (hget (handle_stop s2 i) i) = (KTimer, false, true, h_closed (hget s i))).
+    { rewrite handle_stop_fl by (cbn [hs set_ts s2]; rewrite L1; exact Hi).
+      change (hget s2 i) with (hget s1 i). rewrite G1. cbn. rewrite Ek. reflexivity. }
+    unfold fl in F. inversion F as [[F1 F2 F3 F4]].
+    destruct (queues_proj _ _ (queues_handle_stop s2 i)) as (E4 & E5 & E6).
+    split.
+    + apply set_closing_QInv. apply QInv_sub with (s := s) (i := i); auto.
+      * intros k j Hj. rewrite wq_get_handle_stop in Hj. change (wq_get s2 k) with (wq_get s k) in Hj.
+        split; [exact Hj|]. intros ->. destruct (q_w _ Q k i Hj) as (_ & _ & K).
+        apply wq_kind_watcher in Hj. rewrite Ek in K. subst k. destruct Hj as [?|[?|?]]; discriminate.
+      * intros j Hj. rewrite E4 in Hj. change (lq s2) with (lq s) in Hj.
+        split; [exact Hj|]. intros ->. destruct (q_lq _ Q i Hj) as (_ & _ & K).
+        apply is_watcher_kind in K. rewrite Ek in K. destruct K as [?|[?|?]]; discriminate.
+      * intros j Hj. rewrite E5, E6 in Hj. change (async_q s2 ++ alq s2) with (async_q s ++ alq s) in Hj.
+        split; [exact Hj|]. intros ->. destruct (q_as _ Q i Hj) as (_ & K & _). congruence.
+      * intros j Hj. rewrite ts_handle_stop in Hj. unfold s2 in Hj. cbn [ts set_ts] in Hj.
+        change (ts s1) with (ts s) in Hj. unfold timer_close in Hj. rewrite ready_set in Hj.
+        split; [apply Hrd; exact Hj|]. intros ->. auto.
+    + eapply KF_trans; [|apply KF_set_closing]. apply OnlyAt_KF with (i := i); auto; congruence.
+  - (* idle *)
+    assert (W : is_watcher s1 i = true) by (apply is_watcher_kind; rewrite G1; cbn; auto).
+    assert (Q1 : QInv s1).
+    { apply QInv_closing_flag; auto.
+      - intros H. destruct (q_as _ Q i H) as (_ & K & _). congruence.
+      - intros H. pose proof (HR i H) as K. apply is_timer_kind in K. congruence. }
+    assert (R1 : RT s1).
+    { intros j Hj. change (ready (ts s1)) with (ready (ts s)) in Hj. pose proof (HR j Hj) as K.
+      apply is_timer_kind. apply is_timer_kind in K. unfold s1. rewrite hget_upd_h.
+      destruct (Nat.eqb i j && Nat.ltb i (length (hs s))) eqn:E; [|exact K].
+      apply andb_prop in E. destruct E as [E _]. apply Nat.eqb_eq in E. subst j. exact K. }
+    destruct (watcher_stop_spec s1 i R1 Q1 ltac:(lia) W) as (Q2 & O2 & F2 & _).
+    split; [apply set_closing_QInv; exact Q2|].
+    eapply KF_trans; [|apply KF_set_closing]. unfold fl in F2. inversion F2 as [[F21 F22 F23 F24]].
+    apply OnlyAt_KF with (i := i); [eapply OnlyAt_trans; eauto| |]; rewrite ?F21, ?F24, G1; auto.
+  - (* prepare *)
+    assert (W : is_watcher s1 i = true) by (apply is_watcher_kind; rewrite G1; cbn; auto).
+    assert (Q1 : QInv s1).
+    { apply QInv_closing_flag; auto.
+      - intros H. destruct (q_as _ Q i H) as (_ & K & _). congruence.
+      - intros H. pose proof (HR i H) as K. apply is_timer_kind in K. congruence. }
+    assert (R1 : RT s1).
+    { intros j Hj. change (ready (ts s1)) with (ready (ts s)) in Hj. pose proof (HR j Hj) as K.
+      apply is_timer_kind. apply is_timer_kind in K. unfold s1. rewrite hget_upd_h.
+      destruct (Nat.eqb i j && Nat.ltb i (length (hs s))) eqn:E; [|exact K].
+      apply andb_prop in E. destruct E as [E _]. apply Nat.eqb_eq in E. subst j. exact K. }
+    destruct (watcher_stop_spec s1 i R1 Q1 ltac:(lia) W) as (Q2 & O2 & F2 & _).
+    split; [apply set_closing_QInv; exact Q2|].
+    eapply KF_trans; [|apply KF_set_closing]. unfold fl in F2. inversion F2 as [[F21 F22 F23 F24]].
+    apply OnlyAt_KF with (i := i); [eapply OnlyAt_trans; eauto| |]; rewrite ?F21, ?F24, G1; auto.
+  - (* check *)
+    assert (W : is_watcher s1 i = true) by (apply is_watcher_kind; rewrite G1; cbn; auto).
+    assert (Q1 : QInv s1).
+    { apply QInv_closing_flag; auto.
+      - intros H. destruct (q_as _ Q i H) as (_ & K & _). congruence.
+      - intros H. pose proof (HR i H) as K. apply is_timer_kind in K. congruence. }
+    assert (R1 : RT s1).
+    { intros j Hj. change (ready (ts s1)) with (ready (ts s)) in Hj. pose proof (HR j Hj) as K.
+      apply is_timer_kind. apply is_timer_kind in K. unfold s1. rewrite hget_upd_h.
+      destruct (Nat.eqb i j && Nat.ltb i (length (hs s))) eqn:E; [|exact K].
+      apply andb_prop in E. destruct E as [E _]. apply Nat.eqb_eq in E. subst j. exact K. }
+    destruct (watcher_stop_spec s1 i R1 Q1 ltac:(lia) W) as (Q2 & O2 & F2 & _).
+    split; [apply set_closing_QInv; exact Q2|].
+    eapply KF_trans; [|apply KF_set_closing]. unfold fl in F2. inversion F2 as [[F21 F22 F23 F24]].
+    apply OnlyAt_KF with (i := i); [eapply OnlyAt_trans; eauto| |]; rewrite ?F21, ?F24, G1; auto.
+  - (* async *)
+    set (s2 := upd_h s1 i (with_pending true)).
+    set (s3 := set_async s2 (remove_q i (async_q s2))).
+    set (s4 := set_alq s3 (remove_q i (alq s3))).
+    assert (G4 : hget s4 i = with_pending true (with_closing true (hget s i))).
+    { change (hget s4 i) with (hget s2 i). unfold s2. rewrite hget_upd_h_same by lia. rewrite G1. reflexivity. }
+    assert (L4 : length (hs s4) = length (hs s)).
+    { change (hs s4) with (hs s2). unfold s2. rewrite len_upd_h. exact L1. }
+    assert (O : OnlyAt s (handle_stop s4 i) i).
+    { apply OnlyAt_trans with (b := s4); [|apply OnlyAt_handle_stop].
+      apply OnlyAt_trans with (b := s1); [exact O1|].
+      apply OnlyAt_trans with (b := s2); [apply OnlyAt_upd|apply OnlyAt_hs; reflexivity]. }
+    assert (F : fl (hget (handle_stop s4 i) i) = (KAsync, false, true, h_closed (hget s i))).
+    { rewrite handle_stop_fl by (rewrite L4; exact Hi). rewrite G4. cbn. rewrite Ek. reflexivity. }
+    unfold fl in F. inversion F as [[F1 F2 F3 F4]].
+    destruct (queues_proj _ _ (queues_handle_stop s4 i)) as (E4 & E5 & E6).
+    split.
+    + apply set_closing_QInv. apply QInv_sub with (s := s) (i := i); auto.
+      * intros k j Hj. rewrite wq_get_handle_stop in Hj. change (wq_get s4 k) with (wq_get s k) in Hj.
+        split; [exact Hj|]. intros ->. destruct (q_w _ Q k i Hj) as (_ & _ & K).
+        apply wq_kind_watcher in Hj. rewrite Ek in K. subst k. destruct Hj as [?|[?|?]]; discriminate.
+      * intros j Hj. rewrite E4 in Hj. change (lq s4) with (lq s) in Hj.
+        split; [exact Hj|]. intros ->. destruct (q_lq _ Q i Hj) as (_ & _ & K).
+        apply is_watcher_kind in K. rewrite Ek in K. destruct K as [?|[?|?]]; discriminate.
+      * intros j Hj. rewrite E5, E6 in Hj.
+        change (async_q s4) with (remove_q i (async_q s)) in Hj.
+        change (alq s4) with (remove_q i (alq s)) in Hj.
+        apply in_app_or in Hj. destruct Hj as [Hj|Hj]; apply in_remove_q in Hj; destruct Hj as [Hj Hne];
+          (split; [apply in_or_app; auto|auto]).
+      * intros j Hj. rewrite ts_handle_stop in Hj. change (ts s4) with (ts s) in Hj.
+        split; [exact Hj|]. intros ->. pose proof (HR i Hj) as K. apply is_timer_kind in K. congruence.
+    + eapply KF_trans; [|apply KF_set_closing]. apply OnlyAt_KF with (i := i); auto; congruence.
+Qed.
+
+(* uv_{idle,prepare,check}_start *)
+Lemma wq_get_set_same s k v :
+  (k = KIdle \/ k = KPrepare \/ k = KCheck) -> wq_get (wq_set s k v) k = v.
+Proof. intros [H|[H|H]]; subst k; reflexivity. Qed.
+
+Lemma wq_get_set_other s k k' v : k <> k' -> wq_get (wq_set s k v) k' = wq_get s k'.
+Proof. intros H. destruct k, k'; try reflexivity; congruence. Qed.
+
+Lemma watcher_start_spec s i hascb :
+  QInv s -> (i < length (hs s))%nat -> is_watcher s i = true ->
+  QInv (fst (watcher_start s i hascb)) /\ KF s (fst (watcher_start s i hascb)).
+Proof.
+  intros Q Hi Hw. unfold watcher_start.
+  destruct (h_active (hget s i)) eqn:Ea; [split; [exact Q|apply KF_refl]|].
+  destruct hascb; cbn [negb fst]; [|split; [exact Q|apply KF_refl]].
+  set (k := h_kind (hget s i)).
+  assert (Hk : k = KIdle \/ k = KPrepare \/ k = KCheck) by (apply is_watcher_kind; exact Hw).
+  set (s1 := wq_set s k (i :: wq_get s k)).
+  set (s2 := upd_h s1 i (with_hascb true)).
+  assert (H1 : hs s1 = hs s) by (unfold s1; destruct k; reflexivity).
+  assert (G1 : forall j, hget s1 j = hget s j) by (intros j; unfold hget; rewrite H1; reflexivity).
+  assert (L2 : length (hs s2) = length (hs s)) by (unfold s2; rewrite len_upd_h, H1; reflexivity).
+  assert (G2 : hget s2 i = with_hascb true (hget s i)).
+  { unfold s2. rewrite hget_upd_h_same by (rewrite H1; exact Hi). rewrite G1. reflexivity. }
+  assert (O : OnlyAt s (handle_start s2 i) i).
+  { apply OnlyAt_trans with (b := s2); [|apply OnlyAt_handle_start].
+    apply OnlyAt_trans with (b := s1); [apply OnlyAt_hs; exact H1|apply OnlyAt_upd]. }
+  assert (F : fl (hget (handle_start s2 i) i) = (k, true, h_closing (hget s i), h_closed (hget s i))).
+  { rewrite handle_start_fl by (rewrite L2; exact Hi). rewrite G2. reflexivity. }
+  unfold fl in F. inversion F as [[F1 F2 F3 F4]].
+  destruct (Shape_handle_start s2 i) as (_ & SQ & _).
+  destruct (queues_proj _ _ SQ) as (E4 & E5 & E6).
+  destruct O as [OL OO].
+  assert (AQ : lq s2 = lq s /\ async_q s2 = async_q s /\ alq s2 = alq s /\ ts s2 = ts s)
+    by (unfold s2, s1; destruct k; auto).
+  destruct AQ as (AQ1 & AQ2 & AQ3 & AQ4).
+  split.
+  - destruct Q. constructor.
+    + intros k' j Hj. rewrite (wq_get_queues _ _ k' SQ) in Hj.
+      change (wq_get s2 k') with (wq_get s1 k') in Hj.
+      destruct (Nat.eq_dec j i) as [->|Hne].
+      * rewrite OL. split; [exact Hi|]. split; [exact F2|].
+        destruct (hkind_eqb k k') eqn:Ekk.
+        -- rewrite F1. destruct k, k'; try discriminate; reflexivity.
+        -- assert (k <> k') by (intros <-; destruct k; discriminate).
+           unfold s1 in Hj. rewrite wq_get_set_other in Hj by assumption.
+           destruct (q_w0 k' i Hj) as (_ & A & _). congruence.
+      * rewrite OO, OL by exact Hne. apply q_w0.
+        destruct (hkind_eqb k k') eqn:Ekk.
+        -- assert (k = k') by (destruct k, k'; try discriminate; reflexivity). subst k'.
+           unfold s1 in Hj. rewrite wq_get_set_same in Hj by exact Hk.
+           destruct Hj as [->|Hj]; [congruence|exact Hj].
+        -- assert (k <> k') by (intros <-; destruct k; discriminate).
+           unfold s1 in Hj. rewrite wq_get_set_other in Hj by assumption. exact Hj.
+    + intros j Hj. rewrite E4, AQ1 in Hj. destruct (q_lq0 j Hj) as (A1 & A2 & A3).
+      assert (j <> i) by (intros ->; congruence).
+      unfold is_watcher, kind_is. rewrite OO, OL by assumption. auto.
+    + intros j Hj. rewrite E5, E6, AQ2, AQ3 in Hj. destruct (q_as0 j Hj) as (A1 & A2 & A3).
+      assert (j <> i).
+      { intros ->. apply is_watcher_kind in Hw. rewrite A2 in Hw. destruct Hw as [?|[?|?]]; discriminate. }
+      rewrite OO, OL by assumption. auto.
+    + intros j Hj. rewrite ts_handle_start, AQ4 in Hj.
+      destruct (Nat.eq_dec j i) as [->|Hne]; [rewrite F3|rewrite OO by exact Hne]; auto.
+  - apply OnlyAt_KF with (i := i); [split; assumption|rewrite F1; reflexivity|rewrite F4; auto].
+Qed.
+
+(* uv__handle_init (+ uv_async_init) *)
+Lemma hget_init_old s k j : (j < length (hs s))%nat -> hget (handle_init s k) j = hget s j.
+Proof. intros H. unfold hget, handle_init. cbn [hs set_ts set_hs]. apply app_nth1. exact H. Qed.
+
+Lemma hget_init_new s k :
+  hget (handle_init s k) (length (hs s)) = mkH k false true false false false false.
+Proof.
+  unfold hget, handle_init. cbn [hs set_ts set_hs]. rewrite app_nth2 by lia.
+  rewrite Nat.sub_diag. reflexivity.
+Qed.
+
+Lemma len_init s k : length (hs (handle_init s k)) = S (length (hs s)).
+Proof. unfold handle_init. cbn [hs set_ts set_hs]. rewrite app_length. simpl. lia. Qed.
+
+Lemma init_QInv s k : QInv s -> QInv (handle_init s k) /\ KF s (handle_init s k).
+Proof.
+  intros Q. split.
+  - destruct Q. constructor.
+    + intros k' j Hj. change (wq_get (handle_init s k) k') with (wq_get s k') in Hj.
+      destruct (q_w0 k' j Hj) as (A1 & A2 & A3). rewrite len_init, hget_init_old by exact A1. splits; auto.
+    + intros j Hj. change (lq (handle_init s k)) with (lq s) in Hj.
+      destruct (q_lq0 j Hj) as (A1 & A2 & A3). unfold is_watcher, kind_is.
+      rewrite len_init, hget_init_old by exact A1. splits; auto.
+    + intros j Hj. change (async_q (handle_init s k) ++ alq (handle_init s k)) with (async_q s ++ alq s) in Hj.
+      destruct (q_as0 j Hj) as (A1 & A2 & A3). rewrite len_init, hget_init_old by exact A1. splits; auto.
+    + intros j Hj. change (ready (ts (handle_init s k))) with (ready (ts s)) in Hj.
+      destruct (Nat.lt_ge_cases j (length (hs s))) as [L|G].
+      * rewrite hget_init_old by exact L. auto.
+      * destruct (Nat.eq_dec j (length (hs s))) as [->|Hne].
+        -- rewrite hget_init_new. reflexivity.
+        -- rewrite hget_overflow by (rewrite len_init; lia). reflexivity.
+  - split; [rewrite len_init; lia|]. intros j Hj. rewrite hget_init_old by exact Hj. auto.
+Qed.
+
+(* ------------------------------------------------------------------ *)
+(* one API call                                                       *)
+(* ------------------------------------------------------------------ *)
+Definition is_cb (e : levent) : bool := match e with VCb _ _ _ => true | _ => false end.
+
+Lemma lapi_no_cb s o : forallb (fun e => negb (is_cb e)) (snd (lapi s o)) = true.
+Proof.
+  destruct o; cbn [lapi];
+    repeat match goal with
+    | |- context [if ?c then _ else _] => destruct c
+    | |- context [let '(_, _) := ?p in _] => destruct p
+    | |- context [match ?k with KTimer => _ | _ => _ end] => destruct k
+    end; reflexivity.
+Qed.
+
+Lemma QInv_fields s s' :
+  QInv s -> hs s' = hs s -> queues s' = queues s -> ready (ts s') = ready (ts s) -> QInv s'.
+Proof.
+  intros Q A B C. apply Shape_QInv with (s := s) (i := O); auto.
+  - apply Shape_fields; auto.
+  - right. unfold hget. rewrite A. reflexivity.
+Qed.
+
+Lemma kind_is_true s i k : kind_is s i k = true -> h_kind (hget s i) = k.
+Proof. unfold kind_is. destruct (h_kind (hget s i)), k; cbn; intros; try discriminate; reflexivity. Qed.
+
+Lemma lapi_spec s pend wpend o :
+  LInvG s pend wpend -> QInv s -> QInv (fst (lapi s o)) /\ KF s (fst (lapi s o)).
+Proof.
+  intros Hinv Q. pose proof Hinv as [HI _].
+  assert (Same : QInv s /\ KF s s) by (split; [exact Q|apply KF_refl]).
+  destruct o; cbn [lapi]; try exact Same.
+  - (* LInit *)
+    destruct (init_QInv s k Q) as (Q1 & K1).
+    destruct k; cbn [fst]; try (split; assumption).
+    set (i := length (hs s)). set (s1 := handle_init s KAsync) in *.
+    assert (Hi1 : (i < length (hs s1))%nat) by (unfold s1; rewrite len_init; unfold i; lia).
+    assert (Gi : hget s1 i = mkH KAsync false true false false false false) by apply hget_init_new.
+    set (s2 := upd_h s1 i (with_hascb hascb)).
+    assert (S2 : Shape s1 s2 i) by (apply Shape_upd; reflexivity).
+    assert (Q2 : QInv s2).
+    { apply Shape_QInv with (s := s1) (i := i); auto. right. apply upd_h_active_same. reflexivity. }
+    assert (G2 : hget s2 i = with_hascb hascb (hget s1 i)) by (apply hget_upd_h_same; exact Hi1).
+    set (s3 := set_async s2 (async_q s2 ++ [i])).
+    assert (Q3 : QInv s3).
+    { destruct Q2. constructor; auto.
+      intros j Hj. change (async_q s3 ++ alq s3) with ((async_q s2 ++ [i]) ++ alq s2) in Hj.
+      assert (Hj' : In j (async_q s2 ++ alq s2) \/ j = i).
+      { rewrite !in_app_iff in Hj. rewrite in_app_iff. simpl in Hj. tauto. }
+      destruct Hj' as [Hj'|->]; [apply q_as0; exact Hj'|].
+      change (hs s3) with (hs s2). change (hget s3 i) with (hget s2 i).
+      destruct S2 as (L2 & _). rewrite L2, G2, Gi. splits; auto. }
+    split.
+    + apply Shape_QInv with (s := s3) (i := i); auto; [apply Shape_handle_start|].
+      left. apply kind_not_watcher. right. change (hget s3 i) with (hget s2 i). rewrite G2, Gi. reflexivity.
+    + eapply KF_trans; [exact K1|]. eapply KF_trans; [apply (Shape_KF _ _ _ S2)|].
+      eapply KF_trans; [apply KF_hs; reflexivity|]. apply (Shape_KF _ _ _ (Shape_handle_start s3 i)).
+  - (* LTStart *)
+    destruct (usable s i && kind_is s i KTimer) eqn:U; [|exact Same].
+    apply andb_prop in U. destruct U as [U K]. apply usable_facts in U. destruct U as [Hi _].
+    apply kind_is_true in K.
+    pose proof (Shape_l_timer_start s pend wpend i Hinv Hi cb t r) as S.
+    destruct (l_timer_start s i cb t r) as [s' c]. cbn [fst] in *.
+    split; [|apply (Shape_KF _ _ _ S)].
+    apply Shape_QInv with (s := s) (i := i); auto. left. apply kind_not_watcher. auto.
+  - (* LTAgain *)
+    destruct (usable s i && kind_is s i KTimer) eqn:U; [|exact Same].
+    apply andb_prop in U. destruct U as [U K]. apply usable_facts in U. destruct U as [Hi _].
+    apply kind_is_true in K.
+    pose proof (Shape_l_timer_again s pend wpend i Hinv Hi) as S.
+    destruct (l_timer_again s i) as [s' c]. cbn [fst] in *.
+    split; [|apply (Shape_KF _ _ _ S)].
+    apply Shape_QInv with (s := s) (i := i); auto. left. apply kind_not_watcher. auto.
+  - (* LTSetRepeat *)
+    destruct (usable s i && kind_is s i KTimer) eqn:U; [|exact Same].
+    cbn [fst]. split; [|apply KF_hs; reflexivity].
+    apply QInv_fields with (s := s); auto.
+  - (* LStart *)
+    destruct (usable s i && is_watcher s i && negb (h_closing (hget s i))) eqn:U; [|exact Same].
+    apply andb_prop in U. destruct U as [U _]. apply andb_prop in U. destruct U as [U W].
+    apply usable_facts in U. destruct U as [Hi _].
+    pose proof (watcher_start_spec s i hascb Q Hi W) as S.
+    destruct (watcher_start s i hascb) as [s' c]. exact S.
+  - (* LStop *)
+    destruct (usable s i) eqn:U; [|exact Same].
+    apply usable_facts in U. destruct U as [Hi _].
+    destruct (kind_is s i KTimer) eqn:K.
+    + apply kind_is_true in K. cbn [fst].
+      pose proof (Shape_l_timer_stop s pend wpend i Hinv Hi) as S.
+      split; [|apply (Shape_KF _ _ _ S)].
+      apply Shape_QInv with (s := s) (i := i); auto. left. apply kind_not_watcher. auto.
+    + destruct (is_watcher s i) eqn:W; [|exact Same]. cbn [fst].
+      destruct (watcher_stop_spec s i (LInvG_RT _ _ _ Hinv) Q Hi W) as (Q2 & O2 & F2 & _).
+      split; [exact Q2|]. unfold fl in F2. inversion F2 as [[F21 F22 F23 F24]].
+      apply OnlyAt_KF with (i := i); auto. congruence.
+  - (* LRef *)
+    destruct (usable s i); [|exact Same]. cbn [fst].
+    destruct (Shape_handle_ref s i) as (S & A).
+    split; [apply Shape_QInv with (s := s) (i := i); auto|apply (Shape_KF _ _ _ S)].
+  - (* LUnref *)
+    destruct (usable s i); [|exact Same]. cbn [fst].
+    destruct (Shape_handle_unref s i) as (S & A).
+    split; [apply Shape_QInv with (s := s) (i := i); auto|apply (Shape_KF _ _ _ S)].
+  - (* LClose *)
+    destruct (usable s i && negb (h_closing (hget s i))) eqn:U; [|exact Same].
+    apply andb_prop in U. destruct U as [U C]. apply usable_facts in U. destruct U as [Hi _].
+    apply negb_true_iff in C. cbn [fst]. apply l_close_spec with (pend := pend) (wpend := wpend); auto.
+  - (* LSend *)
+    destruct (usable s i && kind_is s i KAsync); [|exact Same]. cbn [fst].
+    unfold async_send. destruct (h_pending (hget s i)); [exact Same|].
+    assert (S : Shape s (upd_h s i (with_pending true)) i) by (apply Shape_upd; reflexivity).
+    split.
+    + apply QInv_fields with (s := upd_h s i (with_pending true)); auto.
+      apply Shape_QInv with (s := s) (i := i); auto. right. apply upd_h_active_same. reflexivity.
+    + eapply KF_trans; [apply (Shape_KF _ _ _ S)|apply KF_hs; reflexivity].
+  - (* LWork *)
+    cbn [fst]. unfold work_submit.
+    match goal with |- context [if ?c then _ else _] => destruct c end;
+      (split; [apply QInv_fields with (s := s); auto|apply KF_hs; reflexivity]).
+  - (* LStopLoop *)
+    cbn [fst]. split; [apply QInv_fields with (s := s); auto|apply KF_hs; reflexivity].
+  - (* LAdv *)
+    cbn [fst]. split; [apply QInv_fields with (s := s); auto|apply KF_hs; reflexivity].
 Qed.
